@@ -51,3 +51,81 @@ def h_b64_decode_only_valueerror():
 
 HARNESSES = [h_b64_encode_spec, h_b64_roundtrip, h_b64_decode_rejects_foreign, h_b64_decode_rejects_plus_slash,
              h_b64_decode_rejects_length, h_b64_decode_only_valueerror]
+
+
+def h_int_to_base64_spec():
+    n = sym_int("n")
+    assume(n >= 0)
+    out = call(util.int_to_base64, n)
+    check(out.returned, "int_to_base64 returns for n >= 0")
+    check(out.value == spec_b64u(spec_minbe(n)).decode("ascii"), "int_to_base64(n) = B64U(minimal big-endian octets of n)")
+
+
+def h_int_to_base64_negative():
+    n = sym_int("n")
+    assume(n < 0)
+    out = call(util.int_to_base64, n)
+    check(out.raised(ValueError), "negative integers are refused with ValueError")
+
+
+def h_int_base64_roundtrip():
+    n = sym_int("n")
+    assume(n > 0)
+    s = util.int_to_base64(n)
+    out = call(util.base64_to_int, s)
+    check(out.returned, "base64_to_int(int_to_base64(n)) returns for n > 0")
+    check(out.value == n, "base64_to_int(int_to_base64(n)) = n")
+
+
+def h_base64_to_int_spec():
+    x = sym_bytes("x")
+    assume(len(x) > 0)
+    s = spec_b64u(x).decode("ascii")
+    out = call(util.base64_to_int, s)
+    check(out.returned, "base64_to_int(B64U(x)) returns for non-empty x")
+    check(out.value == spec_os2ip(x), "base64_to_int(B64U(x)) = OS2IP(x)")
+
+
+def h_encode_int_spec():
+    n = sym_int("n")
+    bits = sym_int("bits")
+    assume(bits >= 0)
+    assume(n >= 0)
+    assume(n < spec_pow256((bits + 7) // 8))
+    out = call(util18.encode_int, n, bits)
+    check(out.returned, "encode_int returns when 0 <= n < 256^ceil(bits/8)")
+    check(out.value == spec_i2osp(n, (bits + 7) // 8), "encode_int(n, bits) = I2OSP(n, ceil(bits/8))")
+    check(len(out.value) == (bits + 7) // 8, "encode_int output has exactly ceil(bits/8) octets")
+
+
+def h_decode_int_spec():
+    s = sym_bytes("s")
+    assume(len(s) > 0)
+    out = call(util18.decode_int, s)
+    check(out.returned, "decode_int returns for non-empty octets")
+    check(out.value == spec_os2ip(s), "decode_int(s) = OS2IP(s)")
+
+
+def h_int_codec_roundtrip():
+    n = sym_int("n")
+    bits = sym_int("bits")
+    assume(bits > 0)
+    assume(n >= 0)
+    assume(n < spec_pow256((bits + 7) // 8))
+    e = util18.encode_int(n, bits)
+    out = call(util18.decode_int, e)
+    check(out.returned, "decode_int(encode_int(n, bits)) returns")
+    check(out.value == n, "decode_int(encode_int(n, bits)) = n (leading zero octets included)")
+
+
+def h_json_b64_roundtrip():
+    d = sym_dict("d")
+    e = util.json_b64encode(d)
+    check(in_b64u_alphabet(e), "json_b64encode output is unpadded base64url")
+    out = call(util.json_b64decode, e)
+    check(out.returned, "json_b64decode(json_b64encode(d)) returns")
+    check(same_json(out.value, d), "json_b64decode(json_b64encode(d)) = d")
+
+
+HARNESSES += [h_int_to_base64_spec, h_int_to_base64_negative, h_int_base64_roundtrip, h_base64_to_int_spec,
+              h_encode_int_spec, h_decode_int_spec, h_int_codec_roundtrip, h_json_b64_roundtrip]
